@@ -539,7 +539,7 @@ def run(ctx):
         "random_normal / random_log_normal accept sd = +inf (`sd > 0`) and any mean incl. NaN/inf: no claim is made for these",
         "oracle contract (premise `oracle_ok` of the theorems): each libstdc++ distribution object delivers n values per request; std::uniform_real_distribution<float>(a, b) delivers values in the closed interval [a, b] for a <= b (implied by the documented [a, b)); std::bernoulli_distribution delivers bool; std::normal_distribution / std::lognormal_distribution any float",
         "the oracle is instantiated in the correspondence by a reference run of libstdc++ (std::mt19937(seed) shared by the requests of a device, one distribution object per request); mt19937 and the distribution algorithms themselves are outside the model",
-        "binary32 comparison and nextafter are modelled on ordinals (sign-magnitude reading of the bit pattern, NaN unordered); validated against the hardware comparison on boundary and random bit patterns in every run",
+        "binary32 comparison and nextafter are modelled on ordinals (sign-magnitude reading of the bit pattern, NaN unordered); the ordinal order is PROVED to be the order of the represented reals (C17_ordinal_order), that the hardware compares and steps (nextafter) this way is validated on boundary and random bit patterns in every run; isfinite(upper - lower) is modelled by exact integer arithmetic on the decoded values (round-to-nearest-even overflow threshold 2^128 - 2^103)",
         "dropout_spec asks x*1 = x and x*0 = 0 of the scalar multiplication (true in every ring; in binary32 x*0 is -0 for negative x and NaN for infinite x); xavier_*_formula read the double computation narrowed once as exact arithmetic (premise `ratio_exact`)",
         "the model RandModel.v is a hand transcription of random.h, device.cc random_*, contrib/functions.h dropout, tensor_funcs.cc/node_funcs.cc gumbel and initializer_impl.cc; it is tied to the code only by the correspondence run",
         "Reals axioms reported by Print Assumptions for the theorems over R (gumbel_inverse_cdf, lognormal_positive, dropout_elem_R, xavier_param_R)",
